@@ -56,7 +56,29 @@ CLAIM = {
             'unchanged, every call equals a fresh estimator on the contiguous complex128 twin). An explicit type '
             'guard of the library is kept as is: RootSequence asserts isinstance(size, int), so a numpy integer '
             'size is rejected with AssertionError; DmrsUeSequence sets cover_code.flags.writeable = False on the '
-            'caller\'s array (values unchanged).',
+            'caller\'s array (values unchanged). Second robustness round: R8 (argument forms: positional / keyword '
+            '/ default / explicit default for every parameter of RootSequence, Srs/DmrsUeSequence, both estimators, '
+            'calcBaseZC, get_*_seq, get_extended_ZF, compute_ls_estimation; equivalent entry points get_srs_seq = '
+            'get_dmrs_seq = get_shifted_root_seq, RootSequence = calcBaseZC + get_extended_ZF, Nzc-only = size+Nzc, '
+            'default Nzc = explicit prime, UeSequence vs raw-array reference, extra_dimension layouts, one-slot cover '
+            'code = plain estimator, 3-D LS = loop of 2-D, indexing / conj / + / * helpers) by theorems '
+            'root_sequence_nzc_only, root_sequence_default_nzc, estimator_normalised_flag, occ_flat_layout plus '
+            'correspondence and oracle; there is no setter path in this API. R9 (np.int8..np.uint64, np.intp, 0-d '
+            'arrays, bool for 0/1 shifts and counts, values above 256 for root index / Nzc / K / positions) and R10 '
+            '(reference, observation, cover code, Y_p and s of different element types; the API takes no '
+            'list-of-arrays argument, so heterogeneity exists only across arguments) by correspondence and oracle '
+            'only (the model is a function of the logical value). R11 (every read-only accessor / helper / repr '
+            'inside the histories) by theorems cell_queries_transparent, cell_ops_stable + correspondence (cellops '
+            'driver op reports the observables at every query) + oracle. R12 (order in which users are built on a '
+            'shared root, order of the superposition, of antennas, realizations and pilots; the phase tables are '
+            'dicts read by key only) by theorem cell_users_order_independent + correspondence + oracle. R13 '
+            '(copy.copy / deepcopy / pickle round trips of users, roots and estimators, users built from a copied '
+            'root, two estimators on one user; deep copies are overwritten and the originals must not notice) by '
+            'theorem cell_copy + correspondence + oracle; the library has no save/load or to_dict for these '
+            'objects. R14 (257 / 258 / 300 users on one root, receive antennas, cover-code slots, channel taps, LS '
+            'realizations / antennas / pilots; 65537 kept taps and antennas) by correspondence and oracle, the '
+            'theorems having no size bound. A library exception inside a correspondence is a broken tie followed by '
+            'the failing-input search (exit 1), never exit 2.',
 }
 
 EPS = 2.0 ** -52
